@@ -10,22 +10,21 @@
   The same `step` functions are what the driver executes when it replays implementation traces.
 -/
 import MayVerif.Proof.Chan.Data
-import MayVerif.Proof.Chan.Mpsc.Step
+import MayVerif.Proof.Chan.Mpsc.Quiesce
+import MayVerif.Proof.Chan.Mpmc.Quiesce
+import MayVerif.Proof.Chan.Spsc.Quiesce
 namespace MayVerif.Chan.Mpsc
 open MayVerif.Chan
 
-/-- nobody is in the middle of an operation: every actor is idle or parked in `recv` -/
-def Quiescent (s : St) : Prop := ∀ u, u < s.n → s.pcs u = .idle ∨ ∃ b tm, s.pcs u = .r4park b tm
-
 /-- **Exactly once** (multiset form, at every reachable state): received ⊎ dropped ⊎ still queued = sent-Ok. -/
-theorem chan_exactly_once (n : Nat) (hn : 0 < n) (sched : List (Tid × Env)) :
+theorem chan_exactly_once (n : Nat) (hn : 0 < n) (sched : List (Nat × Env)) :
     (received (run (init n) sched).sh.hist ++ dropped (run (init n) sched).sh.hist ++ (run (init n) sched).sh.q).Perm
       (run (init n) sched).sh.pushed :=
   exactly_once_of _ _ _ (inv_run _ sched (inv_init n hn)).data
 
 /-- **No phantom**: whatever a receive returns (`done _ (ok m)`) was popped for this receiver, and whatever was
     popped for a receiver was pushed by a send. -/
-theorem chan_no_phantom (n : Nat) (hn : 0 < n) (sched : List (Tid × Env)) (t : Tid) (a : Api) (m : Msg)
+theorem chan_no_phantom (n : Nat) (hn : 0 < n) (sched : List (Nat × Env)) (t : Nat) (a : Api) (m : Msg)
     (hr : (run (init n) sched).pcs t = .done a (.ok m)) :
     m ∈ recvBy (run (init n) sched).sh.hist t ∧ m ∈ (run (init n) sched).sh.pushed := by
   have h := inv_run _ sched (inv_init n hn)
@@ -34,22 +33,22 @@ theorem chan_no_phantom (n : Nat) (hn : 0 < n) (sched : List (Tid × Env)) (t : 
 
 /-- **Per-sender FIFO**: the messages of sender `s` that receiver `r` got are, in the order received, a
     subsequence of the messages `s` pushed, in the order sent. -/
-theorem chan_per_sender_fifo (n : Nat) (hn : 0 < n) (sched : List (Tid × Env)) (r s : Tid) :
+theorem chan_per_sender_fifo (n : Nat) (hn : 0 < n) (sched : List (Nat × Env)) (r s : Nat) :
     ((recvBy (run (init n) sched).sh.hist r).filter (fun m => m.src == s)).Sublist
       ((run (init n) sched).sh.pushed.filter (fun m => m.src == s)) :=
   fifo_of _ _ _ (inv_run _ sched (inv_init n hn)).data r s
 
 /-- with the single receiver of mpsc the received sequence is exactly a prefix of the pushed one up to drops: the
     popped messages in pop order followed by the queue are the pushed messages in push order -/
-theorem chan_global_fifo (n : Nat) (hn : 0 < n) (sched : List (Tid × Env)) :
+theorem chan_global_fifo (n : Nat) (hn : 0 < n) (sched : List (Nat × Env)) :
     (run (init n) sched).sh.pushed = (run (init n) sched).sh.hist.map (·.1) ++ (run (init n) sched).sh.q :=
   (inv_run _ sched (inv_init n hn)).data
 
 /-- **The send wakes the receiver** (quiescence form): if nobody is in the middle of an operation and a value is
     queued, a receiver parked in `recv` holds its wake-up token, i.e. its park returns. -/
-theorem chan_send_wakes_receiver (n : Nat) (hn : 0 < n) (sched : List (Tid × Env))
+theorem chan_send_wakes_receiver (n : Nat) (hn : 0 < n) (sched : List (Nat × Env))
     (hq : Quiescent (run (init n) sched)) (hv : (run (init n) sched).sh.q ≠ [])
-    (t : Tid) (b : Bid) (tm : Bool) (hp : (run (init n) sched).pcs t = .r4park b tm) :
+    (t : Nat) (b : Nat) (tm : Bool) (hp : (run (init n) sched).pcs t = .r4park b tm) :
     (run (init n) sched).sh.tok b = true := by
   have h := inv_run _ sched (inv_init n hn)
   generalize run (init n) sched = s at *
@@ -82,3 +81,142 @@ example : recvBy (run (init 2) [(0, .giveRx 1), (0, .send 1), (0, .go), (0, .go)
     (1, .tryRecv), (1, .go), (1, .go), (1, .tryRecv), (1, .go), (1, .go)]).sh.hist 1 = [⟨1, 0⟩, ⟨2, 0⟩] := by decide
 
 end MayVerif.Chan.Mpsc
+
+/-! ## mpmc (`Model/Chan/Mpmc.lean`: the code with the F4 fix; the semaphore is the counted gate of C10) -/
+namespace MayVerif.Chan.Mpmc
+open MayVerif.Chan
+
+/-- **Exactly once** (multiset form, at every reachable state): received ⊎ dropped ⊎ still queued = sent-Ok. -/
+theorem chan_exactly_once (n : Nat) (hn : 0 < n) (sched : List (Nat × Env)) :
+    (received (run (init n) sched).sh.hist ++ dropped (run (init n) sched).sh.hist ++ (run (init n) sched).sh.q).Perm
+      (run (init n) sched).sh.pushed :=
+  exactly_once_of _ _ _ (inv_run _ sched (inv_init n hn)).data
+
+/-- **No phantom**: whatever a receive returns was popped for this receiver, and whatever was popped was pushed. -/
+theorem chan_no_phantom (n : Nat) (hn : 0 < n) (sched : List (Nat × Env)) (t : Nat) (a : Api) (m : Msg)
+    (hr : (run (init n) sched).pcs t = .done a (.ok m)) :
+    m ∈ recvBy (run (init n) sched).sh.hist t ∧ m ∈ (run (init n) sched).sh.pushed := by
+  have h := inv_run _ sched (inv_init n hn)
+  have h1 := mem_recvBy _ t m (h.cr t m (by simp [hr, carries]))
+  exact ⟨h1, no_phantom_of _ _ _ h.data t m h1⟩
+
+/-- **Per-sender FIFO, per receiver**: the messages of sender `s` that receiver `r` got are, in the order received,
+    a subsequence of the messages `s` pushed, in the order sent. -/
+theorem chan_per_sender_fifo (n : Nat) (hn : 0 < n) (sched : List (Nat × Env)) (r s : Nat) :
+    ((recvBy (run (init n) sched).sh.hist r).filter (fun m => m.src == s)).Sublist
+      ((run (init n) sched).sh.pushed.filter (fun m => m.src == s)) :=
+  fifo_of _ _ _ (inv_run _ sched (inv_init n hn)).data r s
+
+/-- **The send wakes a receiver** (quiescence form). With several receivers a queued value wakes ONE of them, so the
+    statement is: if nobody is in the middle of an operation, a value is queued and some receiver is parked, then
+    some parked receiver holds its wake-up token (its park returns and it takes a value) – the state is not a hang.
+
+    (Full single-receiver form "quiescent ∧ value queued ⇒ no receiver parked without its token" is false for mpmc by
+    design: two parked receivers and one value wake one receiver.) -/
+theorem chan_send_wakes_receiver (n : Nat) (hn : 0 < n) (sched : List (Nat × Env))
+    (hq : Quiescent (run (init n) sched)) (hv : (run (init n) sched).sh.q ≠ [])
+    (t : Nat) (b : Nat) (a : Api) (hp : (run (init n) sched).pcs t = .w1park b a) :
+    ∃ u b' a', u < n ∧ (run (init n) sched).pcs u = .w1park b' a' ∧ (run (init n) sched).sh.tok b' = true := by
+  have h := inv_run _ sched (inv_init n hn)
+  have hn' : (run (init n) sched).n = n := by simpa [init] using run_n (init n) sched
+  obtain ⟨u, b', a', hu, h1, h2⟩ := quiet_someone_woken _ h hq (Or.inl hv) t b a hp
+  exact ⟨u, b', a', by omega, h1, h2⟩
+
+/-- … and counted: in a quiescent state (with a Receiver alive) every queued value – and the disconnect token – is
+    matched by a free permit or by a woken receiver that has not run yet. No wake-up is lost, none is duplicated. -/
+theorem chan_values_have_permits (n : Nat) (hn : 0 < n) (sched : List (Nat × Env))
+    (hq : Quiescent (run (init n) sched)) (hrx : 0 < (run (init n) sched).sh.rxPorts) :
+    ((run (init n) sched).sh.q.length : Int) + (if (run (init n) sched).sh.dposted then 1 else 0) =
+      (if 0 < (run (init n) sched).sh.cnt then (run (init n) sched).sh.cnt else 0)
+        + tuSum (run (init n) sched).sh.nextB (run (init n) sched).sh.tu :=
+  quiet_ledger _ (inv_run _ sched (inv_init n hn)) hq hrx
+
+-- non-vacuity: actor 0 keeps the Sender, actors 1 and 2 get a Receiver each and park; one send wakes exactly actor 1
+example : let s := run (init 3) [(0, .cloneRx), (0, .go), (0, .go), (0, .giveRx 1), (0, .giveRx 2),
+    (1, .recv), (1, .go), (1, .go), (2, .recv), (2, .go), (2, .go),
+    (0, .send 7), (0, .go), (0, .go), (0, .go), (0, .go), (0, .go)]
+    s.pcs 0 = .idle ∧ s.pcs 1 = .w1park 0 .recv ∧ s.pcs 2 = .w1park 1 .recv ∧ s.sh.q ≠ [] ∧ s.sh.tok 0 = true ∧ s.sh.tok 1 = false := by decide
+-- … which then returns the value
+example : (run (init 3) [(0, .cloneRx), (0, .go), (0, .go), (0, .giveRx 1), (0, .giveRx 2),
+    (1, .recv), (1, .go), (1, .go), (2, .recv), (2, .go), (2, .go),
+    (0, .send 7), (0, .go), (0, .go), (0, .go), (0, .go), (0, .go), (1, .go), (1, .go)]).pcs 1 = .done .recv (.ok ⟨7, 0⟩) := by decide
+-- a timed-out waiter leaves a released blocker behind; the next post pops it and passes the permit on to the live waiter
+example : let s := run (init 3) [(0, .cloneRx), (0, .go), (0, .go), (0, .giveRx 1), (0, .giveRx 2),
+    (1, .recvTimeout), (1, .go), (1, .go), (2, .recv), (2, .go), (2, .go), (1, .timeout), (1, .go),
+    (0, .send 7), (0, .go), (0, .go), (0, .go), (0, .go), (0, .go), (0, .go)]
+    s.pcs 0 = .idle ∧ s.pcs 1 = .idle ∧ s.pcs 2 = .w1park 1 .recv ∧ s.sh.tok 1 = true := by decide
+
+end MayVerif.Chan.Mpmc
+
+/-! ## spsc (`Model/Chan/Spsc.lean`: thread endpoints and coroutine endpoints – with its kernel tail `subscribe`,
+    as fixed by F3.patch; `co` says which actors run in coroutine context) -/
+namespace MayVerif.Chan.Spsc
+open MayVerif.Chan
+
+/-- **Exactly once** (multiset form, at every reachable state): received ⊎ dropped ⊎ still queued = sent-Ok. -/
+theorem chan_exactly_once (n : Nat) (co : Nat → Bool) (hn : 0 < n) (sched : List (Nat × Env)) :
+    (received (run (init n co) sched).sh.hist ++ dropped (run (init n co) sched).sh.hist ++ (run (init n co) sched).sh.q).Perm
+      (run (init n co) sched).sh.pushed :=
+  exactly_once_of _ _ _ (inv_run _ sched (inv_init n co hn)).data
+
+/-- **No phantom**: whatever a receive returns was popped for this receiver, and whatever was popped was pushed. -/
+theorem chan_no_phantom (n : Nat) (co : Nat → Bool) (hn : 0 < n) (sched : List (Nat × Env)) (t : Nat) (a : Api) (m : Msg)
+    (hr : (run (init n co) sched).pcs t = .done a (.ok m)) :
+    m ∈ recvBy (run (init n co) sched).sh.hist t ∧ m ∈ (run (init n co) sched).sh.pushed := by
+  have h := inv_run _ sched (inv_init n co hn)
+  have h1 := mem_recvBy _ t m (h.cr t m (by simp [hr, carries]))
+  exact ⟨h1, no_phantom_of _ _ _ h.data t m h1⟩
+
+/-- **FIFO** (one sender, one receiver): popped messages in pop order followed by the queue are the pushed
+    messages in push order; in particular what a receiver got is a subsequence of what was sent, in order. -/
+theorem chan_per_sender_fifo (n : Nat) (co : Nat → Bool) (hn : 0 < n) (sched : List (Nat × Env)) (r s : Nat) :
+    (run (init n co) sched).sh.pushed = (run (init n co) sched).sh.hist.map (·.1) ++ (run (init n co) sched).sh.q ∧
+    ((recvBy (run (init n co) sched).sh.hist r).filter (fun m => m.src == s)).Sublist
+      ((run (init n co) sched).sh.pushed.filter (fun m => m.src == s)) :=
+  ⟨(inv_run _ sched (inv_init n co hn)).data, fifo_of _ _ _ (inv_run _ sched (inv_init n co hn)).data r s⟩
+
+/-- **The send wakes the receiver** (quiescence form): if nobody is in the middle of an operation and a value is
+    queued, a receiver parked (thread) or suspended (coroutine) in `recv` has been unparked / scheduled. -/
+theorem chan_send_wakes_receiver (n : Nat) (co : Nat → Bool) (hn : 0 < n) (sched : List (Nat × Env))
+    (hq : Quiescent (run (init n co) sched)) (hv : (run (init n co) sched).sh.q ≠ [])
+    (t : Nat) (hp : Waiting (run (init n co) sched) t) : (run (init n co) sched).sh.tok t = true := by
+  have h := inv_run _ sched (inv_init n co hn)
+  generalize run (init n co) sched = s at *
+  have hS2 := quiet_counts s hq atS2 rfl (fun _ => rfl) (fun _ => rfl)
+  have hkt := hq.2
+  rcases hp with ⟨b, hp⟩ | ⟨b, hp⟩
+  · have hUP := quiet_counts s hq (unparking b) rfl (fun _ => rfl) (fun _ => rfl)
+    rcases h.w1 t b (by simp [hp, waitsOn]) with h1 | h1 | h1 | h1
+    · rcases h.w2 t b (by simp [hp, waitsOn]) (by simp [hp, pastPop]) h1 with h2 | h2
+      · exact absurd h2 hv
+      · omega
+    · exact h1
+    · omega
+    · simp [hkt, kPending] at h1
+  · have hUP := quiet_counts s hq (unparking b) rfl (fun _ => rfl) (fun _ => rfl)
+    rcases h.w1 t b (by simp [hp, waitsOn]) with h1 | h1 | h1 | h1
+    · rcases h.w2c t b (by simp [hp, waitsOn]) (by simp [hp, suspended]) (by simp [hkt, kPastEmpty]) h1 with h2 | h2
+      · exact absurd h2 hv
+      · omega
+    · exact h1
+    · omega
+    · simp [hkt, kPending] at h1
+
+-- non-vacuity, thread endpoints: actor 1 gets the Receiver, parks in recv, is woken by the send and returns the value
+example : (run (init 2 (fun _ => false)) [(0, .giveRx 1), (1, .recv), (1, .go), (1, .go), (1, .go), (1, .go), (1, .go), (1, .go)]).pcs 1 = .r4park 0 := by decide
+example : (run (init 2 (fun _ => false)) [(0, .giveRx 1), (1, .recv), (1, .go), (1, .go), (1, .go), (1, .go), (1, .go), (1, .go),
+    (0, .send 7), (0, .go), (0, .go), (0, .go), (0, .go), (1, .go), (1, .go)]).pcs 1 = .done .recv (.ok ⟨7, 0⟩) := by decide
+-- coroutine receiver: switches out, its kernel tail registers and re-checks; the send schedules it; it waits for the kernel tail, then receives
+example : let s := run (init 2 (fun t => t == 1)) [(0, .giveRx 1), (1, .recv), (1, .go), (1, .go), (1, .go),
+    (1, .kern), (1, .kern), (1, .kern), (1, .kern)]
+    s.pcs 1 = .y1susp 0 ∧ s.sh.kt = .kIdle ∧ s.sh.waitCo = some 0 := by decide
+example : (run (init 2 (fun t => t == 1)) [(0, .giveRx 1), (1, .recv), (1, .go), (1, .go), (1, .go),
+    (1, .kern), (1, .kern), (1, .kern), (1, .kern),
+    (0, .send 7), (0, .go), (0, .go), (0, .go), (0, .go), (1, .go), (1, .go), (1, .go)]).pcs 1 = .done .recv (.ok ⟨7, 0⟩) := by decide
+-- the re-check of the kernel tail: the value arrives between the failed try_recv and the registration; `subscribe` resumes the coroutine itself
+example : let s := run (init 2 (fun t => t == 1)) [(0, .giveRx 1), (1, .recv), (1, .go), (1, .go), (1, .go),
+    (0, .send 7), (0, .go), (0, .go), (0, .go), (0, .go),
+    (1, .kern), (1, .kern), (1, .kern), (1, .kern)]
+    s.sh.kt = .k5done ∧ s.sh.tok 1 = true := by decide
+
+end MayVerif.Chan.Spsc
